@@ -673,7 +673,7 @@ static void gather_scatter_convert(Rng& rng)
             // truncation toward zero for float -> integer, on every architecture
             for (size_t k = 0; k < M; ++k)
             {
-                double v = (double)(1000 + 3 * k);
+                double v = sizeof(U) == 1 ? (double)(1 + 3 * k) : (double)(1000 + 3 * k); // must be representable in the memory type
                 if (std::is_floating_point<U>::value)
                 {
                     v += (double)(k % 4) * 0.25 + (sizeof(U) == 8 ? 1e-9 * (double)(k + 1) : 0.0);
